@@ -24,6 +24,8 @@ try:
     print('repo tests with the change:', 'pass' if res['tests_pass'] else 'FAIL\n' + out)
     for pid in ids:
         t0 = time.time()
+        evp = '/verif/evidence/%s.json' % pid
+        saved = open(evp).read() if os.path.exists(evp) else None   # evidence of a mutated tree must not replace the real one
         rc, out = sh('bin/vcheck %s --tier quick' % pid, cwd='/verif', env=env)
         lines = [l for l in out.split('\n') if l.startswith('VIOLATION') or l.startswith('KNOWN-FINDING')]
         keys = []
@@ -41,6 +43,8 @@ try:
         except Exception:
             pass
         res['checks'][pid] = dict(exit=rc, violations=keys, wall=round(time.time() - t0, 1), obligations_broken=broken)
+        if saved is not None:
+            open(evp, 'w').write(saved)
         print('%s exit=%d wall=%.0fs' % (pid, rc, time.time() - t0))
         for k in keys[:6]:
             print('    ', k)
